@@ -11,7 +11,7 @@ import filesupport as fsup
 from props import c04, c05
 
 PROP = "C06"
-LEAN_MODULES = ["Props.C06"]
+LEAN_MODULES = ["Props.C06", "Props.C05"]
 RULE = (
     "case = (register file definition with unambiguous identifiers, text content x). Contents are canonical lines "
     "perturbed by extra precision, odd spacing inside fields, right-aligned literals, explicit '+', Unicode digits, "
@@ -24,7 +24,7 @@ RULE = (
 )
 ASSUMPTIONS = c05.ASSUMPTIONS
 TRUSTED = []
-NOT_THEOREMS = ['W(R(W(R x))) = W(R x) and verbatim default lines: evaluated per case']
+NOT_THEOREMS = ['record-level premise of Props.C06.main (every typed record parsed from x renders and is record-stable: C01 stability) — a theorem from the per-field laws (Props.C06.recStable_of_laws; laws proved for integers, literals, missing values), per case for float and date fields']
 EXHAUSTIVE = {"quick": False, "thorough": False}
 
 
